@@ -247,6 +247,18 @@ if __name__ == "__main__":
     if os.environ.get("PYTHONHASHSEED") != "0":
         # deterministic set/dict-of-str iteration: the same source gives byte-identical queries on every run
         os.execve(sys.executable, [sys.executable] + sys.argv, dict(os.environ, PYTHONHASHSEED="0"))
+    # last line of defence against a hang (every solver call is already bounded): a quick check that is still running after
+    # 14 minutes, a thorough one after 2 hours, stops as a checker error (exit 3) instead of sitting there
+    import threading
+    _limit = 7200 if ("thorough" in sys.argv or os.environ.get("VERIF_TIER") == "thorough") else 840
+
+    def _too_long():
+        sys.stdout.write(f"CHECKER-ERROR the check did not finish within {_limit} s\n")
+        sys.stdout.flush()
+        os._exit(3)
+    _wd = threading.Timer(_limit, _too_long)
+    _wd.daemon = True
+    _wd.start()
     try:
         sys.exit(main())
     except SystemExit:
